@@ -2,8 +2,8 @@
 (* Names, paths and universes shared by MCLoader.tla and MCLoaderTrace.tla (pure constants). *)
 EXTENDS Sequences
 \* ---------------------------------------------------------------- names
-\* byte order: '.' (2E) < 'a' < 'b' < 'c' < 'h' < 'l' < 'm' < 'r' < 's' < 't' < 'x'
-MCCharOrder == <<".", "a", "b", "c", "d", "h", "l", "m", "r", "s", "t", "x">>
+\* byte order: '-' (2D) < '.' (2E) < ['/' (2F), the separator, never inside a name] < 'a' < 'b' < 'c' < 'h' < 'l' < 'm' < 'r' < 's' < 't' < 'x'
+MCCharOrder == <<"-", ".", "a", "b", "c", "d", "h", "l", "m", "r", "s", "t", "x">>
 N_m == <<"m", ".", "l">>
 N_a == <<"a", ".", "l">>
 N_b == <<"b", ".", "l">>
@@ -15,6 +15,7 @@ N_x == <<"x", ".", "l">>
 D_r == <<"r">>
 D_s == <<"s">>
 D_d == <<"d">>
+D_sx == <<"s", "-">>          \* a directory whose name extends another's by a byte below the separator: paths sort by component, not as strings
 D_t == <<"t">>
 Star_l == <<"*", ".", "l">>
 Q_l == <<"?", ".", "l">>
@@ -29,7 +30,7 @@ ArbUniverse == {MCRoot, <<D_r, N_a>>, <<D_r, D_s, N_b>>}
 ArbUniverseT == ArbUniverse \cup {<<D_r, D_s, N_a>>}
 
 GlobUniverse == {MCRoot, <<D_r, N_a>>, <<D_r, N_b>>, <<D_r, N_ab>>, <<D_r, N_h>>, <<D_r, N_t>>,
-                 <<D_r, D_s, N_a>>, <<D_r, D_s, N_c>>, <<D_r, D_d, N_a>>, <<D_r, D_d, N_x>>}
+                 <<D_r, D_s, N_a>>, <<D_r, D_s, N_c>>, <<D_r, D_d, N_a>>, <<D_r, D_d, N_x>>, <<D_r, D_sx, N_a>>}
 
 SplitUniverse == {MCRoot, <<D_r, N_a>>, <<D_r, N_b>>, <<D_r, D_s, N_a>>, <<D_r, D_s, N_c>>, <<D_r, D_s, D_t, N_b>>}
 \* every path of any scenario (the universe of recorded traces)
